@@ -63,6 +63,7 @@ retry:
 	for len(p.list) == 0 && p.size == p.cap && !p.down && ctx.Err() == nil {
 		verifYield(ctx, "pool.Acquire.wait", p, Completed{})
 		p.cond.Wait()
+		verifYield(ctx, "pool.Acquire.woken", p, Completed{})
 	}
 
 	if ctx.Err() != nil {
